@@ -1,6 +1,7 @@
 package sim
 
 import (
+	"github.com/DataDog/extendeddaemonset/pkg/controller/utils/comparison"
 	"fmt"
 	"math/rand/v2"
 	"sort"
@@ -441,7 +442,18 @@ func (s *Sim) Setup() {
 		}
 	}
 	for _, e := range s.W.EDS {
-		if _, err := s.Store.CreateObj(e.Object()); err != nil {
+		obj := e.Object()
+		if l := s.W.Extra["staleHash"]; l != "" {
+			// a manifest exported from a replica set or PodTemplate: the ExtendedDaemonSet's own
+			// metadata carries a (stale) template-hash annotation
+			h := "0123456789abcdef0123456789abcdef"
+			if t := e.Templates[l]; t != nil {
+				spec := t.Spec()
+				h, _ = comparison.GenerateMD5PodTemplateSpec(&spec)
+			}
+			obj.Annotations[edsv1.MD5ExtendedDaemonSetAnnotationKey] = h
+		}
+		if _, err := s.Store.CreateObj(obj); err != nil {
 			panic(err)
 		}
 	}
